@@ -564,6 +564,8 @@ const fn mul(a: u64, b: u64) -> u64 {
 #[inline(always)]
 #[allow(clippy::many_single_char_names)]
 fn inv(x: u64) -> u64 {
+    // zero has two internal representations (0 and M); bring x into [0, M) before testing for it
+    let x = normalize(x);
     if x == 0 {
         return 0;
     };
